@@ -499,6 +499,19 @@ def rewrite_body(text, rules_log, intended_panics=False, keep_asserts=False):
                         out.append(Tok("ident", fn + "()", t.pos))
                         i = close + 1
                         continue
+        # R5d: a zero-arm `match x {}` (x of an uninhabited type) -> `vabsurd(x)`: Verus has no zero-arm match; the call
+        # is never reached at run time and nothing is assumed about its result
+        if t.kind == "ident" and t.text == "match":
+            j = _next_sig(toks, i + 1)
+            if j < n and toks[j].kind == "ident":
+                j2 = _next_sig(toks, j + 1)
+                if j2 < n and toks[j2].text == "{":
+                    j3 = _next_sig(toks, j2 + 1)
+                    if j3 < n and toks[j3].text == "}":
+                        rules_log.append(("R5d", f"match {toks[j].text} {{}} -> vabsurd({toks[j].text})"))
+                        out.append(Tok("ident", f"vabsurd({toks[j].text})", t.pos))
+                        i = j3 + 1
+                        continue
         # R5c: `.unwrap_or_else(|_| { panic!(..) })`  ->  `.vunwrap_or_panic()` (unwrap with a custom panic message)
         if t.kind == "ident" and t.text == "unwrap_or_else":
             j = _next_sig(toks, i + 1)
@@ -826,6 +839,8 @@ R9_RULES = [
             "let mut r9_n: usize = 0; while r9_n < $$e.len() { let $x = &mut $$e[r9_n]; r9_n = r9_n + 1; let $t = $$m; if $$c { $$b; } }"),
     ("R9b", "$$e . iter_mut ( ) . filter ( | $x | $$c ) . for_each ( | $x | {",
             "let mut r9_n: usize = 0; while r9_n < $$e.len() { let $x = &mut $$e[r9_n]; r9_n = r9_n + 1; if $$c {", "} ) ;", "} }"),
+    ("R9b2", "$$e . iter_mut ( ) . filter ( | $x | $$c ) . for_each ( | $x | $$b ) ;",
+            "let mut r9_n: usize = 0; while r9_n < $$e.len() { let $x = &mut $$e[r9_n]; r9_n = r9_n + 1; if $$c { $$b; } }"),
     ("R9d", "$$e . iter_mut ( ) . map ( | $x | $x . $f ) . collect :: < Vec < _ >> ( ) . into_iter ( ) . for_each ( | $y | $$b )",
             "{ let mut r9_v: Vec<usize> = Vec::new(); let mut r9_n: usize = 0; while r9_n < $$e.len() { r9_v.push($$e[r9_n].$f); r9_n = r9_n + 1; } "
             "let mut r9_m: usize = 0; while r9_m < r9_v.len() { let $y = r9_v[r9_m]; r9_m = r9_m + 1; $$b; } }"),
